@@ -209,17 +209,34 @@ def setAttr (k : PStr) (v : AttrVal) : List (PStr × AttrVal) → List (PStr × 
     and U+0130 (→ `i` + U+0307, two code points), so no non-ASCII spelling lower-cases to the literal. -/
 def asciiLower (s : PStr) : PStr := s.map (fun c => if 65 ≤ c && c ≤ 90 then c + 32 else c)
 
-/-- `HTMLTreeBuilder.set_up_substitutions` (builder/__init__.py:642-694) on a parsed tag's attributes -/
+/-- HTML5 style (builder/__init__.py:680-684): a `charset` attribute becomes a placeholder -/
+def subCharsetStep (attrs : List (PStr × AttrVal)) : List (PStr × AttrVal) :=
+  match lookupAttr (ofS "charset") attrs with
+  | some cs => setAttr (ofS "charset") (.charsetMeta cs.str) attrs
+  | none => attrs
+
+/-- HTML4 style (builder/__init__.py:686-692): `content` becomes a placeholder when `http-equiv` is `content-type` in any
+    letter case -/
+def subContentStep (attrs : List (PStr × AttrVal)) : List (PStr × AttrVal) :=
+  match lookupAttr (ofS "content") attrs, lookupAttr (ofS "http-equiv") attrs with
+  | some ct, some he =>
+    if asciiLower he.str = ofS "content-type" then setAttr (ofS "content") (.contentMeta ct.str) attrs else attrs
+  | _, _ => attrs
+
+/-- `HTMLTreeBuilder.set_up_substitutions` (builder/__init__.py:642-694) on a parsed tag's attributes, as repaired: the two
+    styles are handled independently (`if … if …`), so a `<meta>` that carries both declarations gets both placeholders.
+    (The values are read before either is replaced; the two steps touch different keys, so they commute.) -/
 def setUpSubstitutions (name : PStr) (attrs : List (PStr × AttrVal)) : List (PStr × AttrVal) :=
+  if name ≠ ofS "meta" then attrs else subContentStep (subCharsetStep attrs)
+
+/-- 4.13.0's `if charset is not None: … elif content is not None and …:` — the HTML4 branch was skipped whenever a
+    `charset` attribute was present, leaving a stale `charset=` inside `content` -/
+def setUpSubstitutionsOld (name : PStr) (attrs : List (PStr × AttrVal)) : List (PStr × AttrVal) :=
   if name ≠ ofS "meta" then attrs
   else
     match lookupAttr (ofS "charset") attrs with
-    | some cs => setAttr (ofS "charset") (.charsetMeta cs.str) attrs
-    | none =>
-      match lookupAttr (ofS "content") attrs, lookupAttr (ofS "http-equiv") attrs with
-      | some ct, some he =>
-        if asciiLower he.str = ofS "content-type" then setAttr (ofS "content") (.contentMeta ct.str) attrs else attrs
-      | _, _ => attrs
+    | some _ => subCharsetStep attrs
+    | none => subContentStep attrs
 
 /-! ## 3. rendering (minimal formatter) -/
 
